@@ -446,6 +446,22 @@ func ruleC12(p *Prog, r *Res) {
 				r.Check(guarded, ruleC, key, p.Pos(c), "index file removed when its use count reached zero", "index file removed without the use-count test")
 			case f.Key() == "manager.Manager.saveState":
 				r.OkTrivial(ruleC, key, p.Pos(c), "old state file; ordering checked by C12-a")
+			case f.Short == "converters" && f.Decl != nil && f.Decl.Recv != nil && recvTypeName(f.Decl.Recv.List[0].Type) == "cacheFile" && isFieldOf(info, c.Args[0], p.Field("converters", "cacheFile", "cachePath")):
+				// a converter cache deletes its own file (the converter left the registry, #65): the file holds derived
+				// data only, and it must have been emptied before — what the object still serves from memory is nothing
+				fl := p.Flow(f)
+				resetM := p.Method("converters", "cacheFile", "Reset")
+				pt, ok := fl.PointOf(c)
+				if !ok || resetM == nil {
+					r.Undecided(ruleC, key, p.Pos(c), "call not found in the CFG")
+					break
+				}
+				isReset := func(n ast.Node) bool {
+					return nodeCalls(p, f, n, func(fn *types.Func, _ *ast.CallExpr) bool { return fn.Origin() == resetM })
+				}
+				target := fl.node(pt)
+				res := fl.Reach([]Pt{fl.Entry()}, func(n ast.Node) bool { return n == target }, isReset)
+				r.Check(!res.Found, ruleC, key, p.Pos(c), "the cache deletes its own file, and only after it was reset", "the cache file is deleted without having been reset first: the object goes on serving records from a file that is gone")
 			default:
 				// the removed name must derive from something created in this function: w.filename / ib.Filename() / i.Filename()
 				// of a local writer/reader (C13-d provenance), a local variable assigned from MakeFilename/Join in this function,
